@@ -600,7 +600,7 @@ Init ==
        /\ WellFormed(kase.p) /\ Keep(kase.p)
        /\ (TgtMenu[kase.t].mode = "canon" => CanonOK(kase.p))
     \/ /\ Mode = "srv"
-       /\ kase \in [p : Progs, t : 1..Len(SrvUsers)]
+       /\ kase \in [p : Progs, t : IF GenSel # {} \/ ValSel # {} THEN TgtSel ELSE 1..Len(SrvUsers)]
        /\ WellFormed(kase.p) /\ Keep(kase.p)
 Next == UNCHANGED kase
 Spec == Init /\ [][Next]_vars
